@@ -63,6 +63,7 @@ struct ExamSpec {
   std::vector<std::pair<double, double>> frames;   // start, duration (s, multiples of 1/8)
   int rn;                    // 0 none, 1 DB nuclide for the modality, 2 second DB nuclide, 3 custom
   double lo, hi, cal;        // keV (multiples of 1/8; -1 unset), calibration (multiple of 1/4; -1 unset)
+  double start;              // study start time, whole seconds since 1970 (0 unset)
 };
 
 struct Case {
@@ -101,6 +102,7 @@ static shared_ptr<ExamInfo> make_exam(const ExamSpec& e) {
   if (e.lo > -1) ei->set_low_energy_thres((float)e.lo);
   if (e.hi > -1) ei->set_high_energy_thres((float)e.hi);
   if (e.cal > -1) ei->set_calibration_factor((float)e.cal);
+  ei->start_time_in_secs_since_1970 = e.start;
   if (e.rn == 1 || e.rn == 2) {
     RadionuclideDB db;
     const bool nm = e.modality == ImagingModality::NM;
@@ -141,7 +143,9 @@ static std::string exam_json(const ExamInfo& e) {
   const Radionuclide rn = e.get_radionuclide();
   j.str("rn", rn.get_name()).num("hlms", satd(rn.get_half_life(false) * 1000.)).num("brppm", satd(rn.get_branching_ratio(false) * 1.e6));
   j.num("lo8", satd(e.get_low_energy_thres() * 8.)).num("hi8", satd(e.get_high_energy_thres() * 8.)).num("cal4", satd(e.get_calibration_factor() * 4.));
-  j.num("start", satd(e.start_time_in_secs_since_1970));
+  // study start time in days + seconds of the day (both fit TLC's integers)
+  { const double st = e.start_time_in_secs_since_1970; const double dd = std::floor(st / 86400.);
+    j.num("startD", satd(dd)).num("startS", satd((st - dd * 86400.) * 1.)).num("startMs", satd((st - std::floor(st)) * 1000.)); }
   return j.done();
 }
 
@@ -433,7 +437,7 @@ static void run_case(vh::Trace& tr, const Case& c, vh::Rng& rng, bool trunc) {
     for (auto& fr : c.ex.frames) se.push_back({ fr.first, fr.first + fr.second });
     TimeFrameDefinitions tfd(se);
     shared_ptr<Scanner> sc(new Scanner(Scanner::E966));
-    DynamicDiscretisedDensity dyn(tfd, 0., sc, tmpl);
+    DynamicDiscretisedDensity dyn(tfd, c.ex.start, sc, tmpl);
     std::vector<shared_ptr<Vox>> frames;
     for (int d = 0; d < c.nd; ++d) {
       Vox& fim = dynamic_cast<Vox&>(dyn.get_density(d + 1));
@@ -508,9 +512,13 @@ static void run_case(vh::Trace& tr, const Case& c, vh::Rng& rng, bool trunc) {
   }
 
   if (trunc && w.ok) {
-    // truncate the first data file at EVERY length 0..full-1 (and leave it complete once, as a control)
+    // truncate the first data file - and, with the Multi format, also the LAST individual data file - at EVERY length
+    // 0..full-1 (and leave it complete once, as a control); the file is restored afterwards
+    std::vector<size_t> which = { 0 };
+    if (w.hdrfiles.size() > 1) which.push_back(w.hdrfiles.size() - 1);
+   for (size_t fi : which) {
     std::map<std::string, std::string> kv;
-    if (!own_parse_header(w.hdrfiles[0], kv)) return;
+    if (!own_parse_header(w.hdrfiles[fi], kv)) return;
     const std::string dataname = g_dir + "/" + get(kv, "nameofdatafile");
     const long full = file_size(dataname);
     std::vector<char> content((size_t)std::max(0L, full));
@@ -521,8 +529,10 @@ static void run_case(vh::Trace& tr, const Case& c, vh::Rng& rng, bool trunc) {
       if (c.kind == "single") { unique_ptr<Dens> rd; th = vh::threw([&] { rd = read_from_file<Dens>(w.file); }, &msg); accepted = !th && rd; }
       else if (c.kind == "dyn") { unique_ptr<DynamicDiscretisedDensity> rd; th = vh::threw([&] { rd = read_from_file<DynamicDiscretisedDensity>(w.file); }, &msg); accepted = !th && rd; }
       else { unique_ptr<ParametricVoxelsOnCartesianGrid> rd; th = vh::threw([&] { rd = read_from_file<ParametricVoxelsOnCartesianGrid>(w.file); }, &msg); accepted = !th && rd; }
-      tr.emit(vh::Json("Trunc").num("id", c.id).num("len", len).num("full", full).boolean("accepted", accepted).boolean("err", th));
+      tr.emit(vh::Json("Trunc").num("id", c.id).num("file", (long long)fi + 1).num("len", len).num("full", full).boolean("accepted", accepted).boolean("err", th));
     }
+    { std::ofstream o(dataname.c_str(), std::ios::binary | std::ios::trunc); o.write(content.data(), full); }
+   }
   }
   rm_files();
 }
@@ -579,6 +589,8 @@ static void gen_exam(Case& c, vh::Rng& rng) {
   static const double LO[] = { -1, -1, 0, 350, 425.5, 100.125 }, HI[] = { -1, 650, 650, 650, 600.25, 700 };
   int w = rng.range(0, 5);
   e.lo = LO[w]; e.hi = HI[w];
+  static const double STARTS[] = { 0, 0, 1277478034., 946684800., 86399., 1700000000. };      // unset, 2010, 2000-01-01 00:00:00, first day, 2023
+  e.start = STARTS[rng.range(0, 5)];
   e.cal = rng.range(0, 2) == 0 ? -1 : (rng.range(0, 2) == 0 ? 1. : rng.range(1, 3999) / 4.);    // unset / exactly 1 / other
 }
 
@@ -686,6 +698,8 @@ int main(int argc, char** argv) {
               }
               gen_values(c, rng, "small");
               gen_exam(c, rng);
+              // the full patient orientation x rotation table, systematically
+              c.ex.orient = (int)((c.id - 1) % 4); c.ex.rot = (int)(((c.id - 1) / 4) % 6);
               emit_env();
               run_case(tr, c, rng, false);
             }
@@ -704,6 +718,8 @@ int main(int argc, char** argv) {
       gen_geom(c, rng, stage == 1 ? 5 : 4, false);
       // keep the data file at a few hundred bytes
       while ((long)c.sz[0] * c.sz[1] * c.sz[2] * TYPES[c.type].bytes * c.nd > (stage == 1 ? 600 : 320)) { int d = rng.range(0, 2); if (c.sz[d] > 1) --c.sz[d]; }
+      // ... and not trivially short
+      while ((long)c.sz[0] * c.sz[1] * c.sz[2] * TYPES[c.type].bytes * c.nd < (stage == 1 ? 96 : 48)) { int d = rng.range(0, 2); ++c.sz[d]; }
       gen_values(c, rng, "nonneg");
       gen_exam(c, rng);
       c.scale_m = 1; c.scale_e = 0;   // (1-byte types: too small, the library switches to its automatic scale)
